@@ -72,6 +72,21 @@ theorem fire_sound (l : LockSt) (a : Act) (pc pc' : Pc) (l' : LockSt) (h : a.fir
     | (cases h; constructor; done)
     | (split at h <;> first | (cases h; done) | (cases h; constructor; simp_all))
 
+def Act.source : Act → Pc
+  | .rBegin => .rIdle | .rClose => .rActive | .wBegin => .wIdle | .wAbort => .wActive
+  | .wCommitStart => .wActive | .wCommitFail => .wPending | .wExclusive => .wPending | .wFinish => .wExcl
+  | .cBegin => .cIdle | .cExclusive => .cPending | .cFinish => .cExcl
+
+def Act.target : Act → Pc
+  | .rBegin => .rActive | .rClose => .rDone | .wBegin => .wActive | .wAbort => .wDone
+  | .wCommitStart => .wPending | .wCommitFail => .wDone | .wExclusive => .wExcl | .wFinish => .wDone
+  | .cBegin => .cPending | .cExclusive => .cExcl | .cFinish => .cDone
+
+theorem fire_src_tgt (l : LockSt) (a : Act) (pc pc' : Pc) (l' : LockSt) (h : a.fire l pc = some (pc', l')) :
+    pc = a.source ∧ pc' = a.target := by
+  have hF := fire_sound l a pc pc' l' h
+  cases hF <;> exact ⟨rfl, rfl⟩
+
 /-- the primitive operations of lock.go a protocol step consists of, in program order -/
 def Act.ops : Act → List LockOp
   | .rBegin => [.sharedLock]
